@@ -77,6 +77,18 @@ def make_generated(rng, kind):
         out.append(dict(base, name="gen-haplotag-collide", subcommand="haplotag",
                         argv=["haplotag", "-o", "{out:tagged.bam}", "--output-haplotag-list", "{out:list.tsv}", "--reference", "{W}/ref.fa",
                               "--output-threads", "{othreads}", "{W}/phased.vcf.gz", "{W}/reads.bam"]))
+        regs = []
+        for _ in range(rng.choice([2, 3, 4])):
+            c = rng.choice(w["chroms"])
+            a = rng.randrange(1, len(c["seq"]) - 100)
+            regs += ["--regions", rng.choice(["%s:%d-%d" % (c["name"], a, a + rng.randrange(50, 400)), "%s:%d" % (c["name"], a), c["name"]])]
+        out.append(dict(base, name="gen-haplotag-regions", subcommand="haplotag",
+                        argv=["haplotag", "-o", "{out:tagged.bam}", "--output-haplotag-list", "{out:list.tsv}", "--reference", "{W}/ref.fa",
+                              "--output-threads", "{othreads}"] + regs + ["{W}/phased.vcf.gz", "{W}/reads.bam"]))
+        out.append(dict(base, name="gen-haplotag-sample-subset", subcommand="haplotag",
+                        argv=["haplotag", "-o", "{out:tagged.bam}", "--output-haplotag-list", "{out:list.tsv}", "--reference", "{W}/ref.fa",
+                              "--sample", w["samples"][-1], "--sample", w["samples"][0], "--ignore-linked-read",
+                              "--output-threads", "{othreads}", "{W}/phased.vcf.gz", "{W}/reads.bam"]))
         out.append(dict(base, name="gen-haplotag-collide-gzlist", subcommand="haplotag",
                         argv=["haplotag", "-o", "{out:tagged.bam}", "--output-haplotag-list", "{out:list.tsv.gz}", "--no-reference",
                               "--tag-supplementary", "--output-threads", "{othreads}", "{W}/phased.vcf.gz", "{W}/reads.bam"]))
@@ -122,6 +134,21 @@ def make_generated(rng, kind):
         out.append(dict(base, name="gen-polyphase-blocks-B1", subcommand="polyphase",
                         argv=["polyphase", "-o", "{out:phased.vcf}", "--ploidy", str(ploidy), "--reference", "{W}/ref.fa", "--threads", "{threads}",
                               "-B", rng.choice(["0", "1", "3", "5"]), "--include-haploid-sets", "{W}/in.vcf", "{W}/reads.bam"]))
+    elif kind == "polyploid-deep":
+        # several read-disconnected blocks of very different depth: many distinct allele-depth profiles, more pool tasks
+        ploidy = 4
+        nseg = rng.choice([6, 8, 10, 12])
+        SL = 330
+        L = SL * nseg
+        w = W.gen_core(rng, n_chroms=1, n_samples=1, ploidy=ploidy, kinds=["snv"], length=L, n_variants=6 * nseg, het_rate=0.95, min_gap=30)
+        segs = []
+        for k in range(nseg):
+            segs.append((0, k * SL + 8, (k + 1) * SL - 8, rng.randrange(20, 161)))
+        W.gen_library_segments(rng, w, "L0", segs, read_len=(160, 314))
+        files = [{"kind": "ref", "name": "ref.fa"}, {"kind": "bam", "lib": "L0", "name": "reads.bam"}, {"kind": "vcf", "name": "in.vcf"}]
+        base = {"world": W.clean_world(w), "files": files, "stdout": None, "expect_exit": 0}
+        out.append(dict(base, name="gen-polyphase-deep", subcommand="polyphase",
+                        argv=["polyphase", "-o", "{out:phased.vcf}", "--ploidy", "4", "--reference", "{W}/ref.fa", "--threads", "{threads}", "{W}/in.vcf", "{W}/reads.bam"]))
     elif kind == "pedigree":
         fams = rng.choice([1, 1, 1, 2])
         names_pool = rng.choice([["kid", "mum", "dad", "kid2", "mum2", "dad2"], ["c", "B", "a", "Z", "y", "X"], ["NA3", "NA1", "NA2", "HG3", "HG1", "HG2"]])
@@ -136,9 +163,18 @@ def make_generated(rng, kind):
         for f in range(fams):
             kid, mum, dad = names_pool[3 * f], names_pool[3 * f + 1], names_pool[3 * f + 2]
             kids = [kid] + extra_kids
+            ncore = len(t[mum][0])
             for kd in kids:
                 hm, hf = rng.randrange(2), rng.randrange(2)
-                t[kd] = [list(t[mum][hm]), list(t[dad][hf])]
+                mat, pat = list(t[mum][hm]), list(t[dad][hf])
+                # a recombination in one parent's transmission for some children
+                if ncore > 4 and rng.random() < 0.5:
+                    bp = rng.randrange(2, ncore - 1)
+                    mat = mat[:bp] + list(t[mum][1 - hm])[bp:]
+                if ncore > 4 and rng.random() < 0.3:
+                    bp = rng.randrange(2, ncore - 1)
+                    pat = pat[:bp] + list(t[dad][1 - hf])[bp:]
+                t[kd] = [mat, pat]
                 ped_lines.append("fam%d %s %s %s 0 1" % (f, kd, dad, mum))
         cores = [r for r in w["records"] if r.get("core")]
         for k, r in enumerate(cores):
@@ -162,6 +198,11 @@ def make_generated(rng, kind):
                         argv=["phase", "-o", "{out:phased.vcf}", "--reference", "{W}/ref.fa", "--ped", "{W}/fam.ped", "--use-ped-samples", "--distrust-genotypes",
                               "--changed-genotype-list", "{out:changed.tsv}", "--output-read-list", "{out:reads.tsv}", "--no-genetic-haplotyping",
                               "{W}/in.vcf", "{W}/reads.bam"]))
+        if len(w["chroms"]) > 1:
+            out.append(dict(base, name="gen-phase-ped-chromosome", subcommand="phase",
+                            argv=["phase", "-o", "{out:phased.vcf}", "--reference", "{W}/ref.fa", "--ped", "{W}/fam.ped", "--chromosome", w["chroms"][-1]["name"],
+                                  "--recombination-list", "{out:recomb.tsv}", "--output-read-list", "{out:reads.tsv}", "--recombrate", "50",
+                                  "{W}/in.vcf", "{W}/reads.bam"]))
         if not extra_kids:
             out.append(dict(base, name="gen-genotype-ped", subcommand="genotype",
                             argv=["genotype", "-o", "{out:genotyped.vcf}", "--reference", "{W}/ref.fa", "--ped", "{W}/fam.ped", "{W}/in.vcf", "{W}/reads.bam"]))
@@ -170,7 +211,7 @@ def make_generated(rng, kind):
     return out
 
 
-GEN_KINDS = ["haplotag-collide", "multisample-phase", "compare-names", "polyploid-blocks", "pedigree"]
+GEN_KINDS = ["haplotag-collide", "multisample-phase", "compare-names", "polyploid-blocks", "polyploid-deep", "pedigree"]
 
 
 def materialise_world(sc, dirpath):
@@ -249,7 +290,8 @@ def gen_case(rng, tier, catalogue):
             if len(chosen) >= n_cat:
                 break
     n_gen = rng.choice([2, 3]) if tier == "quick" else rng.choice([3, 4, 5])
-    kinds = rng.sample(GEN_KINDS, min(n_gen, len(GEN_KINDS)))
+    # the worker pool only has work to schedule on multi-block polyploid worlds: one of them in every case
+    kinds = ["polyploid-deep"] + rng.sample([k for k in GEN_KINDS if k != "polyploid-deep"], min(n_gen, len(GEN_KINDS) - 1))
     worlds = []
     for wi, kind in enumerate(kinds):
         scs = make_generated(rng, kind)
@@ -488,6 +530,10 @@ class NodeEngine(Engine):
                         shapes.append("sched:" + digest(o)[:16])
                     shapes.append("%s|%s" % (sc["name"].split("@")[0], digest([node["hashseed"], cfg])[:12]))
                     r0 = ref[i]
+                    if cfg["repeat"] == "dirty":
+                        # a file the command does not write at all (reference: absent) keeps its stale content in a
+                        # pre-filled directory; that is not a result of this run
+                        r = dict(r, digests={n: (d if r0["digests"].get(n) is not None else None) for n, d in r["digests"].items()})
                     same = r["digests"] == r0["digests"] and r["status"]["exit"] == r0["status"]["exit"] and r["status"]["exc"] == r0["status"]["exc"]
                     log.add("node", [k, i, same])
                     if same:
